@@ -108,7 +108,12 @@ public:
 
 		~DisableQueueNotify()
 		{
-			--queue->queueNotifyCounter;
+			{
+				// Decrease the counter with queueListMutex held, otherwise a thread in wait() that has
+				// just evaluated its predicate, but is not blocked yet, misses the notification below.
+				std::lock_guard<Mutex> queueListLock(queue->queueListMutex);
+				--queue->queueNotifyCounter;
+			}
 
 			if(queue->doCanNotifyQueueAvailable() && ! queue->emptyQueue()) {
 				queue->queueListConditionVariable.notify_one();
